@@ -385,8 +385,9 @@ func TestC10_WireFormat(t *testing.T) {
 				m.Profile = sp(P1Name)
 			}
 			var own []*int64
+			present := drawOwnPresent(t, len(es.OwnKeys), "own")
 			for i := range es.OwnKeys {
-				if genBool.Draw(t, fmt.Sprintf("own%d", i)) {
+				if present[i] {
 					v := rapid.Int64Range(0, 1<<40).Draw(t, fmt.Sprintf("own%d.val", i))
 					if extRuleBroken(&v) {
 						v = 14
